@@ -78,9 +78,19 @@ pub(crate) struct FlushWorker<T: Types> {
 impl<T: Types> FlushWorker<T> {
     /// When starting, there is at most one open chunk file that is not sync.
     pub(crate) fn spawn(self) {
+        #[cfg(feature = "verif-hooks")]
+        crate::verif_hooks::at("worker.spawn", 0);
         std::thread::Builder::new()
             .name("raft_log_wal_flush_worker".to_string())
             .spawn(move || {
+                #[cfg(feature = "verif-hooks")]
+                let _verif_exit_guard = {
+                    crate::verif_hooks::at("worker.start", 0);
+                    crate::verif_hooks::ExitGuard {
+                        point: "worker.exit",
+                        a: 0,
+                    }
+                };
                 self.run();
             })
             .expect("Failed to start sync worker thread");
@@ -103,12 +113,16 @@ impl<T: Types> FlushWorker<T> {
     fn run(self) {
         let res = self.run_inner();
         if let Err(e) = res {
+            #[cfg(feature = "verif-hooks")]
+            crate::verif_hooks::at("worker.failed", 0);
             log::error!("FlushWorker failed: {}", e);
         }
     }
 
     fn run_inner(mut self) -> Result<(), io::Error> {
         loop {
+            #[cfg(feature = "verif-hooks")]
+            crate::verif_hooks::at("worker.recv", 0);
             let req = self.rx.recv();
             let Ok(SeqRequest { seq, req }) = req else {
                 log::info!("FlushWorker input channel closed, quit");
@@ -117,6 +131,8 @@ impl<T: Types> FlushWorker<T> {
 
             let WorkerRequest::Write(w) = req else {
                 self.handle_non_flush_request(req)?;
+                #[cfg(feature = "verif-hooks")]
+                crate::verif_hooks::at("worker.done", seq);
                 self.done_seq.store(seq, Ordering::Relaxed);
                 continue;
             };
@@ -141,6 +157,11 @@ impl<T: Types> FlushWorker<T> {
             }
 
             debug!("batched write: {}", batch.len());
+            #[cfg(feature = "verif-hooks")]
+            crate::verif_hooks::at(
+                "worker.batched",
+                (batch.len() - 1 + last_non_flush.is_some() as usize) as u64,
+            );
 
             {
                 // TODO: possible to use write_all_vectored()?
@@ -171,6 +192,8 @@ impl<T: Types> FlushWorker<T> {
 
                 for w in batch {
                     if let Some(cb) = w.callback {
+                        #[cfg(feature = "verif-hooks")]
+                        crate::verif_hooks::at("worker.cb", 0);
                         match &sync_result {
                             Ok(()) => cb.send(Ok(())),
                             Err(e) => {
@@ -194,6 +217,8 @@ impl<T: Types> FlushWorker<T> {
                 max_seq = max_seq.max(nf_seq);
             }
 
+            #[cfg(feature = "verif-hooks")]
+            crate::verif_hooks::at("worker.done", max_seq);
             self.done_seq.store(max_seq, Ordering::Relaxed);
         }
     }
@@ -202,6 +227,17 @@ impl<T: Types> FlushWorker<T> {
         &mut self,
         req: WorkerRequest<T>,
     ) -> Result<(), io::Error> {
+        #[cfg(feature = "verif-hooks")]
+        crate::verif_hooks::at("worker.nonflush", match &req {
+            WorkerRequest::Write(_) => crate::verif_hooks::REQ_WRITE,
+            WorkerRequest::AppendFile(_) => crate::verif_hooks::REQ_APPEND_FILE,
+            WorkerRequest::RemoveChunks { .. } => {
+                crate::verif_hooks::REQ_REMOVE_CHUNKS
+            }
+            WorkerRequest::GetFlushStat { .. } => {
+                crate::verif_hooks::REQ_GET_STAT
+            }
+        });
         match req {
             WorkerRequest::AppendFile(file_entry) => {
                 info!("FlushWorker: AppendFile: {}", file_entry);
@@ -250,6 +286,8 @@ impl<T: Types> FlushWorker<T> {
 
         let f = &mut files[0];
 
+        #[cfg(feature = "verif-hooks")]
+        crate::verif_hooks::at("worker.evictable", 0);
         {
             let mut cache = self.cache.write().unwrap();
             cache.set_last_evictable(f.prev_last_log_id.clone());
